@@ -523,5 +523,5 @@ def check_C14(tier):
                        "non-trivial = all (every program is cyclic); distinct by (program, history)")
     chk.cov["exhaustive"] = True
     chk.assumptions += ["interpreter recursion limit lowered to 400 during replays (stack exhaustion shows as RecursionError cause)"]
-    decide(chk, "C14", jobs, variants, strict_counts=False, max_replays=80000 if tier == "quick" else 600000)
+    decide(chk, "C14", jobs, variants, strict_counts=False, max_replays=40000 if tier == "quick" else 600000)
     return chk.finish()
